@@ -253,9 +253,25 @@ def rule_arrow_block(check):
     # construction of the block body under is_expr()
     ctor = [n for n in hir.walk(f.body) if n.get("k") == "Call" and (hir.peel(n["f"]).get("res", {}).get("ctor_path") or "").endswith("BlockStmtOrExpr::BlockStmt")]
     check.floor(R, "block body constructions", len(ctor), 1)
+    def body_kind(conds):
+        """'expr' / 'block' / None: what the conditions say about arrow.body (is_expr() tests or patterns
+        on the two-variant BlockStmtOrExpr)"""
+        for c in conds:
+            cc = hir.cond_call(c)
+            if cc and cc[0] in ("is_expr", "is_block_stmt") and T._place_ends(cc[2], "body"):
+                return ("expr" if cc[3] else "block") if cc[0] == "is_expr" else ("block" if cc[3] else "expr")
+            if c["t"] == "pat" and c.get("scrut") is not None and (hir.place(c["scrut"]) or "").endswith(".body"):
+                v = str(hir.pat_variant(c["pat"]))
+                if v.endswith("BlockStmtOrExpr::Expr"):
+                    return "expr" if c["v"] else "block"
+                if v.endswith("BlockStmtOrExpr::BlockStmt"):
+                    return "block" if c["v"] else "expr"
+        return None
+
+    pva = Prov(prog)
     for n in ctor:
         conds = f.conds_at(n)
-        gated = any((hir.cond_call(c) or [None])[0] == "is_expr" and hir.cond_call(c)[3] and T._place_ends(hir.cond_call(c)[2], "body") for c in conds)
+        gated = body_kind(conds) == "expr"
         check.expect(gated, R, R + "/gate", hir.loc(n), "block body built when arrow.body.is_expr()", "block body construction is not guarded by arrow.body.is_expr()")
         rets = [m for m in hir.walk(n) if m.get("k") == "Struct" and (m["res"].get("path") or "").endswith("ReturnStmt")]
         ok = False
@@ -269,12 +285,20 @@ def rule_arrow_block(check):
                 for fld in r["fields"]:
                     if fld["name"] == "arg" and any(x.get("k") == "Field" and x["field"] == "body" for x in hir.walk(fld["e"])):
                         ok = True
+        if not ok:
+            # by provenance: the returned expression is (part of) the body of the arrow parameter
+            for r in [m for m in hir.walk(f.body) if m.get("k") == "Struct" and (m["res"].get("path") or "").endswith("ReturnStmt")]:
+                for fld in r["fields"]:
+                    if fld["name"] == "arg":
+                        os_ = pva.origins(f, fld["e"])
+                        if os_ and all(r_[0] == "param" and p_ and str(p_[0]).split(".")[-1] == "body" for r_, p_ in os_):
+                            ok = True
         check.expect(ok, R, R + "/return-arg", hir.loc(n), "the block returns the former expression body", "the new block does not return the former arrow body")
     # every non-modified return happens when the body is not an expression
     rets_nm = [n for n in hir.calls_in(f.body, name="not_modified")]
     for n in rets_nm:
         conds = f.conds_at(n)
-        neg = any((hir.cond_call(c) or [None])[0] == "is_expr" and hir.cond_call(c)[3] is False for c in conds)
+        neg = body_kind(conds) == "block"
         check.expect(neg, R, R + "/not-modified-only-for-blocks", hir.loc(n), "not_modified only when the body already is a block", "to_dd_arrow_expr can leave an expression-bodied arrow untouched")
     # applied in visit_mut_expr
     v = [g for g in overrides_of(prog, OPV) if g.name == "visit_mut_expr"][0]
